@@ -100,3 +100,87 @@ Proof. rewrite !nlen_length, map_length. reflexivity. Qed.
 
 Lemma nlen_repeat {A} (x : A) n : nlen (repeat x n) = N.of_nat n.
 Proof. rewrite nlen_length, repeat_length. reflexivity. Qed.
+
+(* ---- replicate by binary size, update at index ---- *)
+Fixpoint nrepeat {A} (x : A) (n : positive) : list A :=
+  match n with
+  | xH => [x]
+  | xO p => nrepeat x p ++ nrepeat x p
+  | xI p => x :: nrepeat x p ++ nrepeat x p
+  end.
+Definition nrep {A} (x : A) (n : N) : list A :=
+  match n with N0 => [] | Npos p => nrepeat x p end.
+
+Fixpoint nset {A} (i : N) (v : A) (l : list A) : list A :=
+  match l with
+  | [] => []
+  | x :: t => if i =? 0 then v :: t else x :: nset (N.pred i) v t
+  end.
+
+
+(* ---- nnth / nset / nrep ---- *)
+Lemma nnth_lt {A} (l : list A) i : i < nlen l -> exists x, nnth i l = Some x.
+Proof.
+  revert i; induction l as [|x t IH]; intros i H; cbn [nlen nnth] in *; [lia|].
+  destruct (N.eqb_spec i 0); [eauto|]. apply IH. lia.
+Qed.
+Lemma nnth_ge {A} (l : list A) i : nlen l <= i -> nnth i l = None.
+Proof.
+  revert i; induction l as [|x t IH]; intros i H; cbn [nlen nnth] in *; [reflexivity|].
+  destruct (N.eqb_spec i 0); [lia|]. apply IH. lia.
+Qed.
+Lemma nlen_nset {A} i (v : A) l : nlen (nset i v l) = nlen l.
+Proof.
+  revert i; induction l as [|x t IH]; intros i; cbn [nset nlen]; [reflexivity|].
+  destruct (i =? 0); cbn [nlen]; [reflexivity|]. now rewrite IH.
+Qed.
+Lemma nnth_nset_same {A} i (v : A) l : i < nlen l -> nnth i (nset i v l) = Some v.
+Proof.
+  revert i; induction l as [|x t IH]; intros i H; cbn [nlen nset nnth] in *; [lia|].
+  destruct (N.eqb_spec i 0) as [->|Hi]; cbn [nnth].
+  - reflexivity.
+  - destruct (N.eqb_spec i 0); [lia|]. apply IH. lia.
+Qed.
+Lemma nnth_nset_other {A} i j (v : A) l : i <> j -> nnth j (nset i v l) = nnth j l.
+Proof.
+  revert i j; induction l as [|x t IH]; intros i j H; cbn [nset nnth]; [reflexivity|].
+  destruct (N.eqb_spec i 0) as [->|Hi]; cbn [nnth].
+  - destruct (N.eqb_spec j 0); [lia|reflexivity].
+  - destruct (N.eqb_spec j 0); [reflexivity|]. apply IH. lia.
+Qed.
+Lemma nrepeat_repeat {A} (x : A) p : nrepeat x p = repeat x (Pos.to_nat p).
+Proof.
+  induction p as [p IH|p IH|]; cbn [nrepeat].
+  - rewrite IH, <- repeat_app. replace (Pos.to_nat p~1) with (S (Pos.to_nat p + Pos.to_nat p))%nat by lia. reflexivity.
+  - rewrite IH, <- repeat_app. f_equal. lia.
+  - reflexivity.
+Qed.
+Lemma nrep_repeat {A} (x : A) n : nrep x n = repeat x (N.to_nat n).
+Proof. destruct n; cbn [nrep]; [reflexivity|]. rewrite nrepeat_repeat. f_equal. Qed.
+Lemma nlen_nrep {A} (x : A) n : nlen (nrep x n) = n.
+Proof. rewrite nrep_repeat, nlen_repeat. lia. Qed.
+Lemma nnth_repeat {A} (x : A) k i : i < N.of_nat k -> nnth i (repeat x k) = Some x.
+Proof.
+  revert i; induction k as [|k IH]; intros i H; [lia|]. cbn [repeat nnth].
+  destruct (N.eqb_spec i 0); [reflexivity|]. apply IH. lia.
+Qed.
+Lemma nnth_nrep {A} (x : A) n i : i < n -> nnth i (nrep x n) = Some x.
+Proof. intros H. rewrite nrep_repeat. apply nnth_repeat. lia. Qed.
+Lemma nnth_map_const {A B} (c : B) (l : list A) i : i < nlen l -> nnth i (map (fun _ => c) l) = Some c.
+Proof.
+  revert i; induction l as [|x t IH]; intros i H; cbn [nlen map nnth] in *; [lia|].
+  destruct (N.eqb_spec i 0); [reflexivity|]. apply IH. lia.
+Qed.
+Lemma nnth_app_last {A} (l : list A) x : nnth (nlen l) (l ++ [x]) = Some x.
+Proof.
+  induction l as [|y t IH]; cbn [nlen app nnth]; [reflexivity|].
+  destruct (N.eqb_spec (N.succ (nlen t)) 0); [lia|]. now rewrite N.pred_succ.
+Qed.
+Lemma nnth_app_lt {A} (l : list A) x i : i < nlen l -> nnth i (l ++ [x]) = nnth i l.
+Proof.
+  revert i; induction l as [|y t IH]; intros i H; cbn [nlen app nnth] in *; [lia|].
+  destruct (N.eqb_spec i 0); [reflexivity|]. apply IH. lia.
+Qed.
+Lemma nnth_tail {A} (x : A) t i : nnth (i + 1) (x :: t) = nnth i t.
+Proof. cbn [nnth]. destruct (N.eqb_spec (i + 1) 0); [lia|]. f_equal. lia. Qed.
+
